@@ -196,6 +196,40 @@ def phantom_fields(text):
     return [(int(a), b.strip()) for a, b in re.findall(r"_(\d+) : :: std :: marker :: PhantomData < ([^>]+?) >", m.group(1))]
 
 
+def direct_where(text):
+    """where-predicates (spaces removed) of the generated `fn direct` of a real expansion"""
+    t = " ".join(DOC_RE.sub(" ", text).split())
+    m = re.search(r"\bfn direct\b(.*?)\{ match self", t)
+    if not m:
+        return None
+    head = m.group(1)
+    # skip the parameter list: the where clause follows the last top-level ')'
+    depth, end = 0, None
+    for k, c in enumerate(head):
+        if c == "(":
+            depth += 1
+        elif c == ")":
+            depth -= 1
+            if depth == 0:
+                end = k
+    tail = head[end + 1:] if end is not None else ""
+    if "where" not in tail:
+        return []
+    body = tail.split("where", 1)[1]
+    out, cur, d = [], "", 0
+    for c in body:
+        if c in "<([":
+            d += 1
+        elif c in ">)]":
+            d -= 1
+        if c == "," and d == 0:
+            out.append(cur); cur = ""
+        else:
+            cur += c
+    out.append(cur)
+    return [x.replace(" ", "") for x in out if x.strip()]
+
+
 def coq_params(gs):
     k = {"type": "KType", "life": "KLife", "const": "KConst"}
     return "[%s]" % "; ".join("{| gp_kind := %s; gp_name := %s |}" % (k[a], cs(n)) for a, n, _ in gs)
@@ -255,7 +289,6 @@ def part_generics(rep, rng, tc_queue):
     if r1 is None or r2 is None:
         raise Infra("expand2 batch timed out")
     r2 = list(reversed(r2))
-    wrap = line_wrap_class(progs)
     items, owners = [], []
     for i, (p, (_, f)) in enumerate(zip(progs + fams, r1)):
         rep.evaluations += 1
@@ -270,15 +303,16 @@ def part_generics(rep, rng, tc_queue):
                           "expected": "identical token strings (twice in one process, once more in another rustc process)",
                           "observed": {"first": t1[:3000], "second": t2[:3000], "other_process": t3[:3000]}}, found=True)
             continue
-        if p["kind"] != "actor" or c1 != "TOKENS" or i in wrap:
-            if i in wrap:
-                rep.count("known_class_inputs", "includes-line-wrap")
+        if p["kind"] != "actor" or c1 != "TOKENS":
             continue
         sel = p["selected_sets"][0]
         sty = "[%s]" % "; ".join(cs(t) for t in g.self_ty_tokens(p))
         call = "(impl_gen %s %s (rev (filter nonconst %s)) %s)" % (coq_params(p["generics"]), sty, coq_params(p["generics"]), coq_meths(g.model_methods(p, sel)))
         items.append(("s%d" % i, "mg_script " + call))
         items.append(("p%d" % i, "mg_phantom " + call))
+        preds = "[%s]" % "; ".join("[%s]" % "; ".join(cs(t) for t in g.sig_tokens(w)) for w in p["where"])
+        items.append(("w%d" % i, "impl_private_preds %s %s (rev (filter nonconst %s)) %s %s" % (
+            coq_params(p["generics"]), sty, coq_params(p["generics"]), coq_meths(g.model_methods(p, sel)), preds)))
         if p.get("self_mode"):
             rep.count("self_programs", p["self_mode"])
             rep.nontrivial.add(("C", "self", p["self_mode"], gsig, tuple(sorted(u for m in p["methods"] for u in m["self_use"]))))
@@ -292,15 +326,20 @@ def part_generics(rep, rng, tc_queue):
         m_script = re.findall(r'"([^"]*)"', vals["s%d" % i])
         m_ph = [(int(a), b) for a, b in re.findall(r'\(\s*(\d+)(?:%nat)?\s*,\s*"([^"]*)"\s*\)', vals["p%d" % i])]
         r_script, r_ph = enum_generics(text), phantom_fields(text)
-        ok = rep.oblige(r_script == m_script and r_ph == m_ph)
+        m_w = ["".join(re.findall(r'"([^"]*)"', grp)) for grp in re.findall(r"\[([^\[\]]*)\]", vals["w%d" % i])] if vals["w%d" % i].strip() != "[]" else []
+        r_w = direct_where(text)
+        if m_w:
+            rep.count("where_on_private_params", str(len(m_w)))
+            rep.nontrivial.add(("C", "where_private", len(m_w), len(p["where"])))
+        ok = rep.oblige(r_script == m_script and r_ph == m_ph and r_w == m_w)
         if m_ph:
             rep.nontrivial.add(("C", "phantom", len(m_ph), len(m_script)))
         if i % 29 == 0:
             rep.sample({"part": "generics", "item": p["item"][:200], "model_script": m_script, "model_phantom": m_ph, "real_script": r_script, "real_phantom": r_ph})
         if not ok:
             lt = any(k == "life" for k, _, _ in p["generics"])
-            d = {"input": {"kind": "actor", "attr": p["attr"], "item": p["item"], "struct": p["struct"]}, "model": {"script": m_script, "phantom": m_ph},
-                 "real": {"script": r_script, "phantom": r_ph}}
+            d = {"input": {"kind": "actor", "attr": p["attr"], "item": p["item"], "struct": p["struct"]}, "model": {"script": m_script, "phantom": m_ph, "where_on_direct": m_w},
+                 "real": {"script": r_script, "phantom": r_ph, "where_on_direct": r_w}}
             if not lt and g.known_class(p) is None:
                 tc_queue.append(("generics_%d" % i, p, d))          # oracle: does rustc accept the real expansion?
             elif first_drift is None:
@@ -314,7 +353,7 @@ def part_totality(rep, rng):
     n = 1500 if rep.tier == "quick" else 10000
     progs = []
     for i in range(n):
-        for _ in range(20):        # keep the known "Internal Error" diag class (nested `_`) to ~5% of the corpus
+        for _ in range(20):        # a nested `_` is rejected with a diagnostic: keep that (legitimate) outcome to ~5% of the corpus
             p = g.gen_program(rng, family=(i % 4 == 3), lifetimes=True, shapes=list(g.NAME_SHAPES), own_names="wide", max_gen=4)
             if not g.nested_wild(p) or rng.random() < 0.1:
                 break
@@ -334,6 +373,8 @@ def part_totality(rep, rng):
                 rep.count("pattern", k)
         for o in p["opts"]:
             rep.count("option", o)
+        for c in g.repaired_classes(p):
+            rep.count("repaired_class_inputs", c)
         rep.count("ctor", p["ctor"])
         rep.nontrivial.add(("D", p["kind"], p["lib"], tuple(sorted(set(p["opts"]))), cls))
         text = f[0] if f else ""
@@ -341,10 +382,6 @@ def part_totality(rep, rng):
         if cls == "PANIC":
             bad = "the macro panicked: " + text[:300]
         elif cls == "DIAG" and "Internal Error" in text:
-            if g.nested_wild(p):
-                known_seen += 1
-                rep.oblige(True)
-                continue
             bad = "diagnostic reports an internal error: " + text[:300]
         elif cls == "LEXERR":
             raise Infra("generator produced unlexable text: " + p["item"])
@@ -355,28 +392,106 @@ def part_totality(rep, rng):
                           "expected": "expansion or a diagnostic about the user's input", "observed": [cls, text[:1500]]}, found=True)
         elif i % 97 == 0:
             rep.sample({"part": "totality", "kind": p["kind"], "attr": p["attr"], "item": p["item"][:160], "class": cls})
-    rep.count("known_class_inputs", "nested-wildcard-pattern(diag)")
     return known_seen
 
 
 # ------------------------------------------------------------------ E: type-check (exploration level)
+S0 = "pub struct A { _z: u8 }"
+NEW = "pub fn new() -> Self { todo!() }"
+# still-open findings: (kind, attr, struct, item, what fails).  Replayed every run; KNOWN-FINDING while the witness fails AND the class is
+# listed in known_findings.txt; a witness that no longer fails (accepted by rustc, or rejected with a diagnostic about the parameters) prints nothing
 WITNESSES = {
-    "variant-name-collision": ("actor", "", "pub struct A { _z: u8 }", "impl A { pub fn new() -> Self { todo!() } pub fn a_b(&self) {} pub fn a_B(&self) {} }",
-                               "methods a_b and a_B (also a_1 / a1) are both mangled to one enum variant: rustc E0428 duplicate definition in the generated Script enum"),
-    "flattened-field-collision": ("actor", "", "pub struct A { _z: u8 }", "impl A { pub fn new() -> Self { todo!() } pub fn get(&self, (a_b, c): (u8, u8), (a, b_c): (u8, u8)) {} }",
+    "flattened-field-collision": ("actor", "", S0, "impl A { %s pub fn get(&self, (a_b, c): (u8, u8), (a, b_c): (u8, u8)) {} }" % NEW,
                                   "patterns (a_b, c) and (a, b_c) are flattened to the same field a_b_c: rustc E0124/E0415 in the generated code"),
-    "param-named-actor": ("actor", "", "pub struct A { _z: u8 }", "impl A { pub fn new() -> Self { todo!() } pub fn get(&self, actor: u8) -> u8 { actor } }",
+    "param-named-actor": ("actor", "", S0, "impl A { %s pub fn get(&self, actor: u8) -> u8 { actor } }" % NEW,
                           "a parameter named `actor` is captured by the generated `direct(self, actor: &mut A)` arm: rustc E0599 (no method `get` on u8)"),
-    "where-on-private-generic": ("actor", "", "pub struct A<T, U> { _p: PhantomData<(T, U)> }", "impl<T, U> A<T, U> where U: 'static { pub fn new() -> Self { todo!() } pub fn get(&self, t: T) {} }",
-                                 "a where-predicate on a generic parameter no method signature mentions is dropped from the generated direct/play functions: rustc E0310 / E0599"),
-    "family-try-new": ("family", 'actor(first_name = "User")', "pub struct A { _z: u8 }", "impl A { pub fn try_new() -> Option<Self> { todo!() } pub fn get(&self) {} }",
-                       "family with a `try_new` constructor calls `UserALive::new`, which does not exist: rustc E0599"),
-    "includes-line-wrap": ("actor", "", "pub struct A<Z, T> { _p: PhantomData<(Z, T)> }",
-                           "impl<Z, T> A<Z, T> { pub fn set_key(&mut self, (y, (_u, mut sender)): (u8, (i8, String)), mut receiver: T) -> i8 { todo!() } pub fn new() -> Self { todo!() } }",
-                           "model::includes searches ' T ' in rustc's line-wrapped token string; T lands at a line start, is taken for unused, and the Script enum loses the parameter: rustc E0425 cannot find type T"),
 }
-WITNESS_DIAG = ("nested-wildcard-pattern", "actor", "", "impl A { pub fn new() -> Self { todo!() } pub fn get(&self, [a, _, b]: [u8; 3]) {} }",
-                "a `_` nested in a destructuring pattern is rejected with a diagnostic that calls itself \"Internal Error.'method::pat_vars_flat_into_ident'\"")
+# repaired defects: regression inputs.  expect "compiles" (TOKENS accepted by rustc) or "diag" (a diagnostic that is not an internal error
+# and contains every listed word)
+S2 = "pub struct A<T, U> { _p: PhantomData<(T, U)> }"
+REGRESSIONS = {
+    "variant-name-collision": ("actor", "", S0, "impl A { %s pub fn a_b(&self) {} pub fn a_B(&self) {} }" % NEW, ("diag", ["a_b", "a_B"]),
+                               "fix_variant_collision: two methods mangled to one variant must be rejected with a diagnostic naming both"),
+    "variant-name-collision-lowercase": ("actor", "", S0, "impl A { %s pub fn a_1(&self) {} pub fn get(&self) {} pub fn a1(&mut self, x: u8) -> u8 { x } }" % NEW, ("diag", ["a_1", "a1"]),
+                                         "fix_variant_collision (a_1 / a1)"),
+    "variant-name-collision-family-member": ("family", 'actor(first_name = "User", include(a_b, a_B)), actor(first_name = "Admin", include(a_b))', S0,
+                                             "impl A { %s pub fn a_b(&self) {} pub fn a_B(&self) {} }" % NEW, ("diag", ["a_b", "a_B"]), "fix_variant_collision inside a family member"),
+    "variant-no-false-diag": ("family", 'actor(first_name = "User", include(a_b)), actor(first_name = "Admin", include(a_B))', S0,
+                              "impl A { %s pub fn a_b(&self) {} pub fn a_B(&self) {} pub fn a__b(&self) {} pub fn ab(x: u8) {} }" % NEW, ("compiles", []),
+                              "methods with clashing variant names selected for DIFFERENT models (or static) are fine"),
+    "where-on-private-generic-lifetime-bound": ("actor", "", S2, "impl<T, U> A<T, U> where U: 'static { %s pub fn get(&self, t: T) {} }" % NEW, ("compiles", []),
+                                                "fix_where_private_generic: where-predicate on a parameter no signature mentions (was E0310)"),
+    "where-on-private-generic-trait-bound": ("actor", 'lib = "tokio"', S2, "impl<T, U> A<T, U> where U: Default, T: Clone { %s pub async fn get(&mut self, t: T) -> T { t } }" % NEW, ("compiles", []),
+                                             "fix_where_private_generic (was E0599 trait bounds not satisfied)"),
+    "where-on-private-generic-mixed-pred": ("family", 'actor(first_name = "User")', S2, "impl<T, U> A<T, U> where T: From<U>, Option<U>: Clone { %s pub fn get(&self, t: T) {} }" % NEW, ("compiles", []),
+                                            "fix_where_private_generic: predicate mentioning a script and a private parameter, family member"),
+    "family-try-new-option": ("family", 'actor(first_name = "User")', S0, "impl A { pub fn try_new() -> Option<Self> { todo!() } pub fn get(&self) {} }", ("compiles", []),
+                              "fix_family_try_new: the family calls the members' `try_new(..)?` (was E0599 no function `new`)"),
+    "family-try-new-result": ("family", 'lib = "tokio", channel = 2, debut, actor(first_name = "User"), actor(first_name = "Admin", channel = 0)', "pub struct A<T> { _p: PhantomData<T> }",
+                              "impl<T> A<T> { pub fn try_new(v: u8) -> Result<A<T>, &'static str> { todo!() } pub async fn get(&self) -> u8 { 0 } pub fn put(&mut self, t: T) {} }", ("compiles", []),
+                              "fix_family_try_new (Result, generic, debut)"),
+    "includes-line-wrap-generic": ("actor", "", "pub struct A<Z, T> { _p: PhantomData<(Z, T)> }",
+                                   "impl<Z, T> A<Z, T> { pub fn set_key(&mut self, (y, (_u, mut sender)): (u8, (i8, String)), mut receiver: T) -> i8 { todo!() } %s }" % NEW, ("compiles", []),
+                                   "d5655e3: generic argument at a line boundary of the printed signature (was E0425)"),
+    "includes-line-wrap-self": ("actor", "", S0, "impl A { %s pub fn m3_x(Pt { x: receiver, y: (c, ..) }: Pt, Wr(k2, (count, a)): Wr) -> Self { todo!() } pub fn get(&self) {} }" % NEW, ("compiles", []),
+                                "d5655e3: `Self` at a line boundary of the printed signature (was E0308)"),
+    "nested-wildcard-pattern": ("actor", "", S0, "impl A { %s pub fn get(&self, [a, _, b]: [u8; 3]) {} }" % NEW, ("diag", ["Unexpected pattern"]),
+                                "fix_nested_wildcard_msg: a nested `_` gets the user-facing diagnostic, not \"Internal Error\""),
+    "nested-wildcard-pattern-tuple": ("actor", "", S0, "impl A { %s pub fn get(&self, (a, (_, b)): (u8, (u8, u8))) {} }" % NEW, ("diag", ["Unexpected pattern"]),
+                                      "fix_nested_wildcard_msg (tuple)"),
+}
+
+
+def replay_witnesses(rep):
+    kf = {f.get("class"): f for f in known_findings()["finding"] if f.get("property") == PID}
+    allw = [(nm, w, None) for nm, w in sorted(WITNESSES.items())] + [(nm, w[:4] + (w[5],), w[4]) for nm, w in sorted(REGRESSIONS.items())]
+    wres = hook.run_batch([(w[0], [w[1], w[3]]) for _, w, _ in allw], tag="c06k")
+    comp = {}
+    for (nm, w, exp), (cls, f) in zip(allw, wres):
+        if cls == "TOKENS":
+            key = re.sub(r"\W", "_", nm)
+            comp["w_" + key] = g.PRELUDE + w[2] + "\n#[interthread::%s(%s)]\n" % (w[0], w[1]) + w[3] + "\n"
+            comp["b_" + key] = g.PRELUDE + w[2] + "\n" + w[3] + "\n"
+    # one cargo check per still-open witness (their errors are expected and would hide others), one for all regression inputs together
+    errs = {}
+    open_keys = {"w_" + re.sub(r"\W", "_", nm) for nm in WITNESSES}
+    for k in sorted(k for k in comp if k in open_keys):
+        e, _ = typecheck.cargo_check({k: comp[k], "b" + k[1:]: comp["b" + k[1:]]}, sub="wit")
+        errs.update(e)
+    rest = {k: v for k, v in comp.items() if k not in open_keys and ("w" + k[1:]) not in open_keys}
+    if rest:
+        e, _ = typecheck.check_fixpoint(rest, sub="wit")
+        errs.update(e)
+    if any(k.startswith("b_") for k in errs):
+        raise Infra("witness user code does not compile: %s" % [k for k in errs if k.startswith("b_")])
+    for (nm, w, exp), (cls, f) in zip(allw, wres):
+        kind, attr, struct, item, what = w
+        key = "w_" + re.sub(r"\W", "_", nm)
+        text = f[0] if f else ""
+        rep.traces += 1
+        inp = {"kind": kind, "attr": attr, "struct": struct, "item": item}
+        if exp is None:                                                  # still-open finding
+            fails = cls == "PANIC" or (cls == "DIAG" and "Internal Error" in text) or (cls == "TOKENS" and key in errs)
+            if fails and nm in kf:
+                rep.known_finding("class=%s: %s" % (nm, what))
+            elif fails:
+                rep.oblige(False)
+                viol(rep, "witness_" + nm, {"what": what + " -- recurrence: the class is not (no longer) listed in known_findings.txt", "input": inp,
+                                            "observed": errs.get(key, [cls, text[:300]])[:5]}, found=True)
+            else:
+                rep.notes.append("finding %s no longer reproduces (%s)" % (nm, "accepted by rustc" if cls == "TOKENS" else "rejected with a diagnostic"))
+            continue
+        mode, words = exp
+        if mode == "compiles":
+            ok = cls == "TOKENS" and key not in errs
+            observed = errs.get(key, [cls, text[:400]])[:5]
+        else:
+            ok = cls == "DIAG" and "Internal Error" not in text and all(x in text for x in words)
+            observed = [cls, text[:600]] if cls != "TOKENS" else ["TOKENS"] + errs.get(key, ["accepted by rustc"])[:4]
+        if not rep.oblige(ok):
+            viol(rep, "regression_" + nm, {"what": "repaired defect is back: " + what, "input": inp,
+                                           "expected": "expansion accepted by rustc" if mode == "compiles" else "a diagnostic about the user's input mentioning %s" % words,
+                                           "observed": observed}, found=True)
 
 
 def part_typecheck(rep, rng, tc_queue):
@@ -385,7 +500,6 @@ def part_typecheck(rep, rng, tc_queue):
     progs = [g.gen_self_program(rng, "only" if i % 8 == 1 else "mix") if i % 4 == 1 else
              g.gen_mostly_clean(rng, family=(i % 4 == 3), lifetimes=False, shapes=list(g.NAME_SHAPES), own_names=True) for i in range(n)]
     res = hook.run_parallel([(p["kind"], [p["attr"], p["item"]]) for p in progs], tag="c06e", shards=12)
-    wrap = line_wrap_class(progs)
     extra = [(name, p, d) for name, p, d in tc_queue]
     failing_known = collections.Counter()
     for a in range(0, len(progs), batch):
@@ -408,7 +522,9 @@ def part_typecheck(rep, rng, tc_queue):
         for k, (i, p) in meta.items():
             rep.evaluations += 1
             rep.traces += 1
-            cls_known = g.known_class(p) or ("includes-line-wrap" if i in wrap else None)
+            cls_known = g.known_class(p)
+            for c in g.repaired_classes(p):
+                rep.count("repaired_class_inputs_typechecked", c)
             rep.nontrivial.add(("E", p["kind"], p["lib"], "".join(x[0] for x, _, _ in p["generics"]), p["ctor"], p.get("self_mode")))
             if p.get("self_mode"):
                 rep.count("self_programs_typechecked", p["self_mode"])
@@ -432,38 +548,7 @@ def part_typecheck(rep, rng, tc_queue):
                 viol(rep, name, d, found=bad)
     for c, k in failing_known.items():
         rep.count("failing_in_known_class", c)
-    # replay of the known-finding witnesses on the real code, one cargo check each (errors of different compiler phases hide each other)
-    kf = {f.get("class"): f for f in known_findings()["finding"] if f.get("property") == PID}
-    names = sorted(WITNESSES)
-    wres = hook.run_batch([(WITNESSES[nm][0], [WITNESSES[nm][1], WITNESSES[nm][3]]) for nm in names] + [(WITNESS_DIAG[1], [WITNESS_DIAG[2], WITNESS_DIAG[3]])], tag="c06k")
-    for nm, (cls, f) in zip(names, wres):
-        kind, attr, struct, item, what = WITNESSES[nm]
-        still = True
-        if cls == "TOKENS":
-            mod = g.PRELUDE + struct + "\n#[interthread::%s(%s)]\n" % (kind, attr) + item + "\n"
-            errs, _ = typecheck.cargo_check({"w": mod, "b": g.PRELUDE + struct + "\n" + item + "\n"}, sub="wit")
-            if "b" in errs:
-                raise Infra("witness user code does not compile: " + nm)
-            still = "w" in errs
-        elif cls == "PANIC":
-            still = True
-        else:
-            still = False                     # now a diagnostic about the input: the finding is gone
-        rep.traces += 1
-        if still and nm in kf:
-            rep.known_finding("class=%s: %s" % (nm, what))
-        elif still:
-            viol(rep, "witness_" + nm, {"what": what, "input": {"kind": kind, "attr": attr, "struct": struct, "item": item}, "observed": "rustc rejects the expansion; class not listed in known_findings.txt"}, found=True)
-        else:
-            rep.notes.append("known finding %s no longer reproduces (witness now accepted or rejected with a diagnostic)" % nm)
-    cls, f = wres[-1]
-    if cls == "DIAG" and "Internal Error" in f[0]:
-        if WITNESS_DIAG[0] in kf:
-            rep.known_finding("class=%s: %s" % (WITNESS_DIAG[0], WITNESS_DIAG[4]))
-        else:
-            viol(rep, "witness_" + WITNESS_DIAG[0], {"what": WITNESS_DIAG[4], "input": {"attr": "", "item": WITNESS_DIAG[3]}, "observed": f[0][:400]}, found=True)
-    else:
-        rep.notes.append("known finding %s no longer reproduces" % WITNESS_DIAG[0])
+    replay_witnesses(rep)
 
 
 def run(rep):
@@ -477,6 +562,7 @@ def run(rep):
     rep.oblige(not bad)
     if problems or bad:
         viol(rep, "theorems", {"what": "property theorem file no longer checks", "problems": problems, "hygiene": bad}, found=False)
+    g.ACTIVE_CLASSES = {f.get("class") for f in known_findings()["finding"] if f.get("property") == PID}
     part_names(rep, random.Random(rng.random()))
     tc_queue = []
     part_generics(rep, random.Random(rng.random()), tc_queue)
@@ -485,7 +571,7 @@ def run(rep):
     rep.extra["typecheck_level"] = "exploration (rustc as oracle on a generated corpus; not a proof)"
     rep.assumptions += [
         "Gen/Names.v models strings as bytes: faithful on ASCII identifiers (C06_legal_is_ascii); non-ASCII and raw identifiers are covered by the totality tie only",
-        "model::includes on a one-token generic argument is token membership in the signature (Gen/Generics.v `includes`); signatures whose rustc-printed token string wraps a line at the argument are the known class includes-line-wrap",
+        "model::includes on a one-token generic argument is token membership in the signature (Gen/Generics.v `includes`); true of the code since d5655e3 (to_string_wide joins wrapped lines), re-checked by the generics tie and two regression inputs",
         "type-check envelope = PROPERTY statement: type and const generics (no lifetime parameters on the impl), documented parameter patterns (ident, tuple, array/slice, struct, tuple struct), receivers &self / &mut self / self / none, valid option lists without edit/file",
         "parameter names spelled like other generator-owned identifiers (inter_send, inter_recv, inter_msg, debut, play, direct, self_) are used in the totality corpus only, not in the type-check corpus (inter_msg next to a generic method and debut next to the debut option were seen to break compilation; not minimised)",
         "rustc / cargo check is trusted as the oracle for type-checking; each program is also compiled without the attribute (generator self-check)",
